@@ -25,6 +25,8 @@ from props.common import quiet_ccp
 
 ID = "C18"
 LEAN_MODULES = ["Ccp.Props.C18", "Ccp.Props.RxC18"]
+# bound of the escalated quick run (source fingerprint changed -> thorough generator): keeps that run near two minutes
+ESCALATE_MAX_CASES = 25000
 SCRATCH = os.environ.get("C18_SCRATCH", tempfile.gettempdir())
 
 RULE = (
